@@ -127,7 +127,7 @@ func runC04(a *Args) error {
 	rng := NewRng(a.Seed)
 	prelude := "From NV Require Import Base C04_DN C04_Model.\nOpen Scope string_scope.\n"
 	w := NewCaseWriter(a, "C04", prelude, "case", "run")
-	w.Rule = "bridge level: (parse) names rendered from abstract DNs over {C,ST,S,O,OU,CN,L,STREET,DC,OIDs,...} with free spacing/escaping/alias and one edit operator per parser rule (26 operators) plus a malformed token stream; (render) well-formed abstract DNs x permutations x random styles rendered by the renderer of the round-trip theorem; (subset) pairs of maps: equal, strict subset, superset, empty value vs absent key, one-character / case / space near misses. API level: real envelopes (JWS, COSE) signed by chains of 1-3 certificates whose RawSubject is a generated RDN sequence (order, multi-valued, duplicate and unknown attributes, special characters), under one-statement policies whose trusted identities are permutations, subsets, supersets, near misses, alias/space/escape variants of the leaf subject, the subject of an intermediate or root, unknown prefixes, malformed identities and wildcards; identities are given at construction (validated by NewVerifier) or placed in the document afterwards; per chain additionally 12 of 67 systematic list shapes (rotating) of 1-4 identities: foreign-prefix identities at every position (first, middle, last, one or several) mixed with matching / non-matching / near-miss / CA-subject x509.subject identities, identities with an empty-valued attribute written first / in the middle / last, duplicated identities, invalid identities at every position; histories on ONE verifier holding an OCI document with two statements (p, q; different scopes) and a blob document with one statement named p / q / bp: identities of the statements same / disjoint / subset / superset / wildcard / near miss relative to each other, sequences Verify->VerifyBlob, VerifyBlob->Verify, V->VB->V, VB->V->VB, alternating OCI statements, with envelopes of two chains (leaf matching one / the other / both / neither statement), every step judged alone on its own statement's identities; two cases per chain name a verification plugin (mock) that advertises the trusted-identity capability or only the revocation capability and reports success or failure; two cases per chain present the envelope to a verifier whose trust store ca:s holds a foreign root instead of the chain's (matching / wildcard / subset / near-miss / CA-subject / foreign / invalid identities, mostly at level audit where the identity check runs after the trust-store failure): authenticity must not pass. Values and texts are ASCII or other valid UTF-8 (multi-byte characters raw or hex-escaped as a whole, Unicode white space, U+00A0 at the edges of values); identity kind dup-empty-first writes an empty-valued attribute before / after the same type of a matching identity. non-trivial = parse: at least three '='; render: all; subset: both maps non-empty; verify: no wildcard, the leaf subject parses and some x509.subject identity parses. distinct = distinct inputs"
+	w.Rule = "bridge level: (parse) names rendered from abstract DNs over {C,ST,S,O,OU,CN,L,STREET,DC,OIDs,...} with free spacing/escaping/alias and one edit operator per parser rule (26 operators) plus a malformed token stream; (render) well-formed abstract DNs x permutations x random styles rendered by the renderer of the round-trip theorem; (subset) pairs of maps: equal, strict subset, superset, empty value vs absent key, one-character / case / space near misses. API level: real envelopes (JWS, COSE) signed by chains of 1-3 certificates whose RawSubject is a generated RDN sequence (order, multi-valued, duplicate and unknown attributes, special characters), under one-statement policies whose trusted identities are permutations, subsets, supersets, near misses, alias/space/escape variants of the leaf subject, the subject of an intermediate or root, unknown prefixes, prefixes that extend / truncate / pad x509.subject in front of a matching value, malformed identities and wildcards; identities are given at construction (validated by NewVerifier) or placed in the document afterwards; per chain additionally 12 of 67 systematic list shapes (rotating) of 1-4 identities: foreign-prefix identities at every position (first, middle, last, one or several) mixed with matching / non-matching / near-miss / CA-subject x509.subject identities, identities with an empty-valued attribute written first / in the middle / last, duplicated identities, invalid identities at every position; histories on ONE verifier holding an OCI document with two statements (p, q; different scopes) and a blob document with one statement named p / q / bp: identities of the statements same / disjoint / subset / superset / wildcard / near miss relative to each other, sequences Verify->VerifyBlob, VerifyBlob->Verify, V->VB->V, VB->V->VB, alternating OCI statements, with envelopes of two chains (leaf matching one / the other / both / neither statement), every step judged alone on its own statement's identities; two cases per chain name a verification plugin (mock) that advertises the trusted-identity capability or only the revocation capability and reports success or failure; two cases per chain present the envelope to a verifier whose trust store ca:s holds a foreign root instead of the chain's (matching / wildcard / subset / near-miss / CA-subject / foreign / invalid identities, mostly at level audit where the identity check runs after the trust-store failure): authenticity must not pass. Values and texts are ASCII or other valid UTF-8 (multi-byte characters raw or hex-escaped as a whole, Unicode white space, U+00A0 at the edges of values); identity kind dup-empty-first writes an empty-valued attribute before / after the same type of a matching identity. non-trivial = parse: at least three '='; render: all; subset: both maps non-empty; verify: no wildcard, the leaf subject parses and some x509.subject identity parses. distinct = distinct inputs"
 	w.Set("frame_check", "every case: deep snapshot before / comparison after each library call of all caller-owned objects passed by reference: the trust policy document (statements, trustedIdentities / trustStores / registryScopes slices, override map), the caller's identities slice, the envelope bytes, the descriptor, the trust store's certificate slices, the PluginConfig and UserMetadata maps (the same map objects for all calls of a run), the two maps given to IsSubsetDN; ParseDistinguishedName takes a string only. Half of the verify cases repeat Verify with the same verifier / document / envelope / option objects and compare the authenticity result.")
 	w.Assumptions = []string{
 		"names, subjects and identities are valid UTF-8 (go-ldap converts segments to []rune and back: the identity on valid UTF-8; the model treats bytes as characters; a text that is not valid UTF-8 is outside the model: Go replaces each offending byte by U+FFFD); hex escapes may produce any byte",
